@@ -2,7 +2,7 @@
 import ast
 
 from ..engine import rule, Ctx
-from ..core import UNKNOWN, dotted, kwarg, body_nodes, inline, stmt_key, canon, walk_no_nested
+from ..core import UNKNOWN, dotted, kwarg, body_nodes, inline, stmt_key, canon, walk_no_nested, resolve_import_name
 from ..exc import ExcFacts
 from . import common
 from .c03 import lazy_fields, id_write_sites, _resets_after, _is_tilde, _own
@@ -169,6 +169,14 @@ def c04_b(ctx: Ctx):
                     out.append(ctx.ok(R, fi, n, "default copy function is shutil.copytree (fails on an existing destination)", construct=c))
                 elif full and full.startswith(("shutil.", "os.")):
                     out.append(ctx.inc(R, fi, n, f"default copy function is {full}", construct=c))
+                elif isinstance(n.value, ast.Call) and (dotted(n.value.func) or "").endswith("partial") and n.value.args \
+                        and resolve_import_name(fi.module, dotted(n.value.args[0]) or "") == "shutil.copytree":
+                    sl = kwarg(n.value, "symlinks")
+                    if sl is not None and ctx.fold(sl, fi) is not False:
+                        out.append(ctx.viol(R, fi, n, "the default copy keeps symbolic links as links (symlinks=True): a link that points out of / into the source job dangles in the copy or makes the copy "
+                                            "share the source's file, so the clone is neither identical nor independent", construct=c))
+                    else:
+                        out.append(ctx.inc(R, fi, n, f"default copy function is {canon(n.value)[:60]}", construct=c))
     fi = ctx.fn(UPD)
     d = fi.default_of("overwrite")
     v = ctx.fold(d, fi) if d is not None else UNKNOWN
@@ -244,6 +252,14 @@ def _presence_test_shape(ctx, fi, test, env):
     return None
 
 
+def _ancestors(ctx, fi, node):
+    par = ctx.parents(fi)
+    p = par.get(id(node))
+    while p is not None:
+        yield p
+        p = par.get(id(p))
+
+
 @rule("C04-d")
 def c04_d(ctx: Ctx):
     """update_statepoint assigns only after the conflicting-key pre-check (unless overwrite); the check does not conflate missing with None."""
@@ -255,6 +271,21 @@ def c04_d(ctx: Ctx):
     assigns = [n for n in cfg.stmt_nodes() if isinstance(n.ast, ast.Assign) and any(
         isinstance(t, ast.Attribute) and t.attr in ("statepoint", "sp") and dotted(t.value) == "self" for t in n.ast.targets)]
     if not assigns:
+        # positive pattern: the live state point (self.statepoint, not a copy obtained by calling it) is written key by key
+        live = {"self.statepoint", "self.sp"}
+        for n in body_nodes(fi):
+            if isinstance(n, ast.Assign) and len(n.targets) == 1 and isinstance(n.targets[0], ast.Name) and canon(n.value) in live:
+                live.add(n.targets[0].id)
+        for n in cfg.stmt_nodes():
+            if n.kind != "stmt":
+                continue
+            a = n.ast
+            tg = a.targets[0] if isinstance(a, ast.Assign) and len(a.targets) == 1 else None
+            per_key = isinstance(tg, ast.Subscript) and canon(tg.value) in live
+            in_loop = any(isinstance(p, (ast.For, ast.While)) for p in _ancestors(ctx, fi, a))
+            if per_key and in_loop:
+                return [ctx.viol(R, fi, a, f"update_statepoint writes the live state point key by key ({canon(tg)} = ...): every assignment re-keys (moves) the job on its own, so a "
+                                 "conflict or a refused move at a later key leaves the job renamed by the earlier keys - the update is not all-or-nothing")]
         return [ctx.inc(R, fi, fi.node, "update_statepoint does not assign self.statepoint")]
     loops = []
     for n in cfg.stmt_nodes():
@@ -283,6 +314,23 @@ def c04_d(ctx: Ctx):
                                 witness=cfg.describe_path(bad)))
         else:
             out.append(ctx.ok(R, fi, a.ast, "the assignment is preceded by the conflicting-key check on every path with overwrite unset"))
+    # nothing is applied before every key has been checked
+    muts = []
+    for n2 in cfg.stmt_nodes():
+        a2 = n2.ast
+        if isinstance(a2, ast.Assign):
+            for t in a2.targets:
+                tt = canon(t)
+                if tt.startswith(("self.statepoint", "self.sp", "self._statepoint")) or (isinstance(t, ast.Subscript) and canon(t.value) in ("statepoint", "sp") and False):
+                    muts.append(n2)
+    raises = [n2 for n2 in cfg.stmt_nodes() if isinstance(n2.ast, ast.Raise) and n2.ast.exc is not None
+              and (dotted(n2.ast.exc.func if isinstance(n2.ast.exc, ast.Call) else n2.ast.exc) or "") == "KeyError"]
+    late = [r for r in raises if any(r.id in cfg.reachable([m.id], kinds="n") for m in muts)]
+    if late:
+        out.append(ctx.viol(R, fi, late[0].ast, "the KeyError for a conflicting key can be raised after an earlier key of the same update has already been assigned to the live state point: "
+                            "a rejected update_statepoint has re-keyed the job (and intermediate state points can collide with other jobs)"))
+    elif muts and raises:
+        out.append(ctx.ok(R, fi, muts[0].ast, "the state point is assigned once, after every key has been checked"))
     for n, x in loops:
         shape = _presence_test_shape(ctx, fi, x.test, env)
         if shape == "ok":
@@ -385,7 +433,12 @@ def c04_h(ctx: Ctx):
     out = []
     for q, recv in ((CLONE, "self"), (MOVE, "project")):
         fi = ctx.fn(q)
-        dsts = [n for n in body_nodes(fi) if isinstance(n, ast.Assign) and any(isinstance(t, ast.Name) and t.id == "dst" for t in n.targets)]
+        # the destination handle: the local bound to a job opened with open_job (whatever it is called)
+        dsts = [n for n in body_nodes(fi) if isinstance(n, ast.Assign) and len(n.targets) == 1 and isinstance(n.targets[0], ast.Name) and isinstance(n.value, ast.Call)
+                and (n.targets[0].id == "dst" or "signac.project:Project.open_job" in common.targets_of(ctx, fi, n.value))]
+        dname = dsts[0].targets[0].id if dsts else "dst"
+        if not dsts:
+            out.append(ctx.inc(R, fi, fi.node, "no local is bound to a destination handle (open_job)"))
         for d in dsts:
             v = d.value
             ok = isinstance(v, ast.Call) and "signac.project:Project.open_job" in common.targets_of(ctx, fi, v) and canon(v.func.value) == recv
@@ -400,7 +453,7 @@ def c04_h(ctx: Ctx):
         prim = [c for c in body_nodes(fi) if isinstance(c, ast.Call) and ((isinstance(c.func, ast.Name) and c.func.id == "copytree") or common.ext_name(ctx, fi, c) in ("os.replace", "os.rename"))]
         for c in prim:
             a = [canon(x) for x in c.args[:2]]
-            want = ["job.path", "dst.path"] if q == CLONE else ["self.path", "dst.path"]
+            want = ["job.path", dname + ".path"] if q == CLONE else ["self.path", dname + ".path"]
             if a == want:
                 out.append(ctx.ok(R, fi, c, f"{canon(c.func)}({want[0]}, {want[1]}): from the source job's directory to the destination handle's directory"))
             elif a == list(reversed(want)):
@@ -409,7 +462,7 @@ def c04_h(ctx: Ctx):
                 out.append(ctx.inc(R, fi, c, f"arguments {a} are not the two job directories"))
         rets = [n for n in body_nodes(fi) if isinstance(n, ast.Return) and n.value is not None]
         if q == CLONE:
-            if rets and all(canon(r.value) == "dst" for r in rets):
+            if rets and all(canon(r.value) == dname for r in rets):
                 out.append(ctx.ok(R, fi, rets[0], "clone returns the destination handle"))
             else:
                 out.append(ctx.viol(R, fi, fi.node, "clone does not return the destination handle"))
